@@ -6,10 +6,10 @@ namespace Operon.AtpConc
 open Operon.Lock Operon.Atp
 
 /-- a cut of every operation into lines that composes to the operation's body -/
-def Cut.Faithful (cls : Classifier) (cut : Cut) : Prop := ∀ a, composeLines (cut a) = body cls a
+def Cut.Faithful (cls : Classifier) (obs : Nat → Obs) (cut : Cut) : Prop := ∀ a, composeLines (cut a) = body cls obs a
 
-theorem rstep_actstep (cls : Classifier) (cut : Cut) (hc : cut.Faithful cls) (ac : ACfg) (rc' : RCfg Loc Store)
-    (h : RStep (ac.toRCfg cut) rc') : ∃ ac', rc' = ac'.toRCfg cut ∧ ActStep cls ac ac' := by
+theorem rstep_actstep (cls : Classifier) (obs : Nat → Obs) (cut : Cut) (hc : cut.Faithful cls obs) (ac : ACfg) (rc' : RCfg Loc Store)
+    (h : RStep (ac.toRCfg cut) rc') : ∃ ac', rc' = ac'.toRCfg cut ∧ ActStep cls obs ac ac' := by
   obtain ⟨st, ts⟩ := ac
   generalize hcfg : (ACfg.toRCfg cut ⟨st, ts⟩) = rc at h
   cases h with
@@ -26,38 +26,38 @@ theorem rstep_actstep (cls : Classifier) (cut : Cut) (hc : cut.Faithful cls) (ac
     rw [List.map_eq_cons_iff] at htodo
     obtain ⟨a, as, rfl, hr, has⟩ := htodo
     subst hr
-    refine ⟨⟨upd1 st a.lock (body cls a loc (st a.lock)).2,
-      pre' ++ ⟨as, (body cls a loc (st a.lock)).1⟩ :: post'⟩, ?_, ActStep.run⟩
-    have he : (⟨a.lock, cut a⟩ : Region Loc Store).eff = body cls a := hc a
+    refine ⟨⟨upd1 st a.lock (body cls obs a loc (st a.lock)).2,
+      pre' ++ ⟨as, (body cls obs a loc (st a.lock)).1⟩ :: post'⟩, ?_, ActStep.run⟩
+    have he : (⟨a.lock, cut a⟩ : Region Loc Store).eff = body cls obs a := hc a
     simp only [ACfg.toRCfg, List.map_append, List.map_cons, hpre, hpost, AThread.toR, has, regionBy, he]
 
-theorem rstar_actstar (cls : Classifier) (cut : Cut) (hc : cut.Faithful cls) (ac0 : ACfg) (rc : RCfg Loc Store)
-    (h : Star RStep (ac0.toRCfg cut) rc) : ∃ ac, rc = ac.toRCfg cut ∧ Star (ActStep cls) ac0 ac := by
+theorem rstar_actstar (cls : Classifier) (obs : Nat → Obs) (cut : Cut) (hc : cut.Faithful cls obs) (ac0 : ACfg) (rc : RCfg Loc Store)
+    (h : Star RStep (ac0.toRCfg cut) rc) : ∃ ac, rc = ac.toRCfg cut ∧ Star (ActStep cls obs) ac0 ac := by
   induction h with
   | refl => exact ⟨ac0, rfl, Star.refl _⟩
   | tail _ hstep ih =>
     obtain ⟨ac, rfl, hs⟩ := ih
-    obtain ⟨ac', rfl, hr⟩ := rstep_actstep cls cut hc ac _ hstep
+    obtain ⟨ac', rfl, hr⟩ := rstep_actstep cls obs cut hc ac _ hstep
     exact ⟨ac', rfl, Star.tail hs hr⟩
 
-theorem actstar_induct {cls : Classifier} {P : ACfg → Prop} {a b : ACfg} (h0 : P a)
-    (hstep : ∀ x y, P x → ActStep cls x y → P y) (hs : Star (ActStep cls) a b) : P b := by
+theorem actstar_induct {cls : Classifier} {obs : Nat → Obs} {P : ACfg → Prop} {a b : ACfg} (h0 : P a)
+    (hstep : ∀ x y, P x → ActStep cls obs x y → P y) (hs : Star (ActStep cls obs) a b) : P b := by
   induction hs with
   | refl => exact h0
   | tail _ hr ih => exact hstep _ _ ih hr
 
 /-! ### per-action facts (from the C04 specifications of the region bodies) -/
 
-theorem body_quiet (cls : Classifier) (a : Act) (l : Loc) (s : Store) : Quiet s (body cls a l s).2 := by
+theorem body_quiet (cls : Classifier) (obs : Nat → Obs) (a : Act) (l : Loc) (s : Store) : Quiet s (body cls obs a l s).2 := by
   cases a with
-  | consume i cost cur d p => exact quiet_consume cls s cost cur d p
-  | regenerate i n cur => exact quiet_regenerate cls s n cur
+  | consume i cost cur d p => exact quiet_consumeO cls (obs i) s cost cur d p
+  | regenerate i n cur => exact quiet_regenerateO cls (obs i) s n cur
   | convert i n => exact quiet_convert s n
   | withdraw i n cur => exact quiet_withdraw s n cur
   | deposit j n cur =>
     simp only [body]
     split
-    · exact quiet_regenerate cls s n cur
+    · exact quiet_regenerateO cls (obs j) s n cur
     · exact Quiet.refl s
 
 /-- what a store can still pay out plus what it has already charged -/
@@ -69,20 +69,21 @@ theorem room_of_convert (s s' : Store) (h : ConvertSpec s s') : s'.room = s.room
   unfold Store.room
   rw [h.total, h.debt, hc.2.2.2.1]
 
-theorem body_pot (cls : Classifier) (a : Act) (l : Loc) (s : Store) (j : Nat) (hj : a.lock = j) :
-    pot (body cls a l s).2 ≤ pot s + a.inflow j := by
+theorem body_pot (cls : Classifier) (obs : Nat → Obs) (a : Act) (l : Loc) (s : Store) (j : Nat) (hj : a.lock = j) :
+    pot (body cls obs a l s).2 ≤ pot s + a.inflow j := by
   cases a with
   | consume i cost cur d p =>
-    have h := (consume_spec cls s cost cur d p).1
+    have h := (consumeO_spec cls (obs i) s cost cur d p).1
     have hr := h.room
     have hcn := h.consumed
     simp only [] at hr hcn
     simp only [body, pot, Act.inflow]
     omega
   | regenerate i n cur =>
-    have h := (regenerate_spec cls s n cur).1
-    have : i = j := hj
-    simp only [body, pot, Act.inflow, this, if_true, h.consumed]
+    have hij : i = j := hj
+    subst hij
+    have h := (regenerateO_spec cls (obs i) s n cur).1
+    simp only [body, pot, Act.inflow, if_true, h.consumed]
     have := h.room; omega
   | convert i n =>
     have h := convert_spec s n
@@ -95,11 +96,12 @@ theorem body_pot (cls : Classifier) (a : Act) (l : Loc) (s : Store) (j : Nat) (h
     | true => have := (h.ok hw).2.2; omega
     | false => rw [h.fail hw]; omega
   | deposit i n cur =>
-    have : i = j := hj
-    simp only [body, Act.inflow, this, if_true]
+    have hij : i = j := hj
+    subst hij
+    simp only [body, Act.inflow, if_true]
     split
-    · have h := (regenerate_spec cls s n cur).1
-      simp only [pot, deposit, h.consumed]
+    · have h := (regenerateO_spec cls (obs i) s n cur).1
+      simp only [pot, depositO, h.consumed]
       have := h.room; omega
     · simp only [pot]; omega
 
@@ -137,16 +139,16 @@ open Operon.Lock Operon.Atp
 
 /-! ### explicit traces: which thread ran which action, in which order -/
 
-/-- `ActRun cls c tr c'`: from `c`, running the actions of `tr` atomically in that order (each entry names the
+/-- `ActRun cls obs c tr c'`: from `c`, running the actions of `tr` atomically in that order (each entry names the
     thread whose next action it is) reaches `c'`. -/
-inductive ActRun (cls : Classifier) : ACfg → List (Nat × Act) → ACfg → Prop
-  | nil (c) : ActRun cls c [] c
+inductive ActRun (cls : Classifier) (obs : Nat → Obs) : ACfg → List (Nat × Act) → ACfg → Prop
+  | nil (c) : ActRun cls obs c [] c
   | snoc {c st pre post a as l tr} :
-      ActRun cls c tr ⟨st, pre ++ ⟨a :: as, l⟩ :: post⟩ →
-      ActRun cls c (tr ++ [(pre.length, a)])
-        ⟨upd1 st a.lock (body cls a l (st a.lock)).2, pre ++ ⟨as, (body cls a l (st a.lock)).1⟩ :: post⟩
+      ActRun cls obs c tr ⟨st, pre ++ ⟨a :: as, l⟩ :: post⟩ →
+      ActRun cls obs c (tr ++ [(pre.length, a)])
+        ⟨upd1 st a.lock (body cls obs a l (st a.lock)).2, pre ++ ⟨as, (body cls obs a l (st a.lock)).1⟩ :: post⟩
 
-theorem actstar_run (cls : Classifier) (c c' : ACfg) (h : Star (ActStep cls) c c') : ∃ tr, ActRun cls c tr c' := by
+theorem actstar_run (cls : Classifier) (obs : Nat → Obs) (c c' : ACfg) (h : Star (ActStep cls obs) c c') : ∃ tr, ActRun cls obs c tr c' := by
   induction h with
   | refl => exact ⟨[], ActRun.nil c⟩
   | tail _ hstep ih =>
@@ -179,7 +181,7 @@ theorem getElem?_mid {α : Type} (pre post : List α) (x : α) (t : Nat) :
 
 /-- **Every run is an interleaving that loses nothing.**  For every thread, the actions it ran (in order) followed by
     the actions it still has to run are exactly the actions it started with; the number of threads never changes. -/
-theorem actrun_proj (cls : Classifier) (c c' : ACfg) (tr : List (Nat × Act)) (h : ActRun cls c tr c') :
+theorem actrun_proj (cls : Classifier) (obs : Nat → Obs) (c c' : ACfg) (tr : List (Nat × Act)) (h : ActRun cls obs c tr c') :
     c'.threads.length = c.threads.length ∧ ∀ t, proj t tr ++ todoAt c' t = todoAt c t := by
   induction h with
   | nil => exact ⟨rfl, fun t => by simp [proj]⟩
@@ -200,15 +202,15 @@ theorem actrun_proj (cls : Classifier) (c c' : ACfg) (tr : List (Nat × Act)) (h
       simpa [proj] using h0
 
 /-- the shared stores and every thread's local state after a run are those of the sequential reference `runTrace` -/
-theorem actrun_runTrace (cls : Classifier) (c c' : ACfg) (tr : List (Nat × Act)) (h : ActRun cls c tr c') :
-    let w := runTrace cls ⟨c.st, locAt c⟩ tr
+theorem actrun_runTrace (cls : Classifier) (obs : Nat → Obs) (c c' : ACfg) (tr : List (Nat × Act)) (h : ActRun cls obs c tr c') :
+    let w := runTrace cls obs ⟨c.st, locAt c⟩ tr
     c'.st = w.st ∧ ∀ t, t < c'.threads.length → locAt c' t = w.locs t := by
   induction h with
   | nil => exact ⟨rfl, fun t _ => rfl⟩
   | @snoc st pre post a as l tr hrun ih =>
     obtain ⟨hst, hloc⟩ := ih
     have hrt : ∀ (w : World) (xs : List (Nat × Act)) (e : Nat × Act),
-        runTrace cls w (xs ++ [e]) = applyAct cls (runTrace cls w xs) e.1 e.2 := by
+        runTrace cls obs w (xs ++ [e]) = applyAct cls obs (runTrace cls obs w xs) e.1 e.2 := by
       intro w xs
       induction xs generalizing w with
       | nil => intro e; rfl
